@@ -449,7 +449,8 @@ Section Accepted.
                   timing_ok c sk o k (unknown_wait c oc ts end0) ts (if (k <=? 1)%nat then ts else ts1) pe = true).
         { intros oc [-> | ->] E; [|reflexivity].
           unfold unknown_wait.
-          destruct ((0 <? max_elapsed c) && (max_elapsed c <? ts - end0)) eqn:Es; [reflexivity|].
+          destruct (((0 <? max_elapsed c) && (max_elapsed c <? ts - end0)) || (max_elapsed c <? 0)) eqn:Es; [reflexivity|].
+          apply orb_false_iff in Es as [Es _].
           apply (timing_fact o k pe tnb ts ts1 wait); try assumption; try (unfold tnb, ts; lia).
           all: destruct Hnb as [[? [? [? ?]]]|[? [[? ?] _]]]; [|assumption].
           all: apply andb_false_iff in Es as [Es|Es]; zb; unfold ts, tnb in *; lia. }
@@ -480,7 +481,8 @@ Section Accepted.
                 ** (* delay_ok *)
                    unfold delay_ok. destruct Hsk as [S1 [S2 [S3 S4]]].
                    destruct Hnb as [[Ew [_ [M1 M2]]]|[_ [[L1 L2] [_ [_ M]]]]].
-                   --- apply orb_true_iff. left. rewrite Ew. bsplit; try reflexivity.
+                   --- apply orb_true_iff. left. rewrite Ew. apply andb_true_iff. split; [reflexivity|].
+                       apply orb_true_iff. left. bsplit.
                        +++ apply Z.ltb_lt. lia.
                        +++ apply Z.ltb_lt. unfold ts, tnb in *. lia.
                    --- apply orb_true_iff. right. bsplit; try (apply Z.leb_le; lia).
